@@ -57,6 +57,34 @@ def ob_last_slice_prune(run, oid):
         for (sbb, ssp) in stores:
             sws = [s_ for (s_, dterm, dty) in ab.switches() if isinstance(dterm, tuple) and dterm[0] == "discr" and K.is_field(dterm[1], "last_slice", "BlockData") and ab.dominates(s_, sbb)]
             o.check(bool(sws), "add_shred|store|last-slice-consulted", "the known last slice is consulted before a shred is stored", ssp)
+        # D26: ... and the other arrival order: the FIRST last-slice marker is refused (Equivocation) when a slice beyond it is already stored,
+        # instead of the stored slice being pruned silently (contradictory last-slice markers are reported in every placement)
+        AE = SBD + "AddShredError"
+        hits = []
+        for (bb, rv, sp, dst) in ab.aggregates(AE):
+            if rv.get("variant") != "Equivocation":
+                continue
+            atoms = G.guard_atoms(ab, bb, prog)
+            no_last = any(a[0] == "is_some" and a[2] is False and K.is_field(a[1][0], "last_slice", "BlockData") for a in atoms)
+            stored = [a for a in atoms if a[0] in ("bool", "is_some", "lt", "le", "gt", "ge") and not (a[0] == "is_some" and K.is_field(a[1][0], "last_slice", "BlockData")) and
+                      any(isinstance(x, tuple) and any(K.mentions_field(x, f, "BlockData") for f in ("shreds", "slices", "commitment_cache")) for x in a[1])]
+            if no_last and stored:
+                cmp_ok = False
+                for a in stored:
+                    if a[0] in ("lt", "le", "gt", "ge"):
+                        cmp_ok = True
+                    for x in a[1]:
+                        for y in (mir.walk(x) if isinstance(x, tuple) else []):
+                            if isinstance(y, tuple) and y and y[0] == "closure":
+                                for cb in prog.family(y[1]):
+                                    if any(c.name.rsplit("::", 1)[-1] in ("lt", "le", "gt", "ge") for c in cb.calls()):
+                                        cmp_ok = True
+                            if isinstance(y, tuple) and y and y[0] == "binop" and y[1] in ("Lt", "Le", "Gt", "Ge"):
+                                cmp_ok = True
+                hits.append((sp, cmp_ok))
+        o.check(bool(hits) and any(h[1] for h in hits), "add_shred|first-last-marker|stored-slice-beyond-is-equivocation",
+                "while no last slice is known, a shred marking its slice as last is answered with Equivocation when a stored slice index lies beyond it", ab.span,
+                {"sites": [h[0].split("/")[-1] for h in hits]})
 
 
 def ob_content_gates(run, oid):
